@@ -41,6 +41,8 @@ def is_virtual(nc):
         return True
     if type(n) is list:
         return True
+    if type(nc.parent) is list:
+        return True          # an element addressed inside a slice's virtual list
     seg = nc.path_segment
     if seg is not None:
         t, a = seg[0], seg[1]
@@ -229,7 +231,8 @@ SEEDS = [
     ("{a: &A1 x, b: *A1, c: [*A1, y, *A1]}", "c[&A1]"), ("{a: &A1 x, b: *A1}", "&A1"),
     ("[{v: 2}, {v: 5}, {v: 5}]", "[max(v)]"), ("{a: {v: 1}, b: {v: 1}, c: {v: 2}}", "[unique(v)]"),
     ("[1, 2, 2, 3]", "[distinct()]"), ("{a: {b: {c: 1}}}", "a.b.c[parent(2)]"),
-    ("{a: &A 1, b: *A, c: [*A, 1]}", "**.c[&A][parent()]"), ("[{c: &A1 10, b: 1}]", "/[0][&A1][parent(2)]"),
+    ("{a: &A 1, b: *A, c: [*A, 1]}", "**.c[&A][parent()]"),
+    ("{r: [{n: 1}, {n: 2}, {n: 3}]}", "/r[0:3]/n"), ("{r: [{n: 1}, {n: 2}, {n: 3}]}", "/r[0:3]/n[parent()]"), ("[{c: &A1 10, b: 1}]", "/[0][&A1][parent(2)]"),
     ("{a: {x: {v: 1}}}", "**[v=1][parent()]"),
     ('{"/x": 1, n: {"/y": 2}}', "**"), ('{"/x": 1}', "*"), ('{"/": {a: 1}}', "/\\//a"),
 ]
@@ -264,10 +267,17 @@ def run_shard(ctx):
             segs = pg.path()
             # name() and array slices produce virtual results (and everything selected *through* them
             # is addressed relative to a virtual node): outside this property's quantifier
-            if any((s[0] == "KW" and s[2] == "name") or s[0] == "SLICE"
-                   or (s[0] == "HSLICE" and s[1].lstrip("-").isdigit()) for s in segs):
+            if any((s[0] == "KW" and s[2] == "name") for s in segs):
                 ctx.count("virtual_path_skipped")
                 continue
+            # array slices: the slice result itself is virtual, and so is an element addressed *by position
+            # inside* the virtual list ([1:3][0]); nodes reached by key below a slice are real and are judged
+            for i, sg in enumerate(segs[:-1]):
+                if sg[0] in ("SLICE", "HSLICE") and segs[i + 1][0] in ("INDEX", "SLICE", "HSLICE", "KW", "SEARCH",
+                                                                       "ALL", "TRAVERSE", "ANCHOR", "WILD"):
+                    segs = segs[:i + 1] + [("KEY", rng.choice(vocab["keys"] or ["a"]))] + segs[i + 2:]
+                if sg[0] == "SLICE" and segs[i + 1][0] == "KEY" and segs[i + 1][1].lstrip("-").isdigit():
+                    segs = segs[:i + 1] + [("KEY", "a")] + segs[i + 2:]
             if rng.random() < 0.35:
                 segs = rng.choice([[("TRAVERSE",)], [("ALL",)], [("ALL",), ("ALL",)],
                                    [("TRAVERSE",), ("SEARCH", False, "=~", ".", ".")],
